@@ -343,6 +343,25 @@ func finish(p *propDef, id, tier string, seed int, t0 time.Time, njobs int, m *m
 			}
 		}
 	}
+	// slowest jobs (stderr, for tuning)
+	{
+		jt := map[string]int64{}
+		for _, r := range m.reports {
+			jt[r.Job] += r.WallMs
+		}
+		type kv struct {
+			k string
+			v int64
+		}
+		var l []kv
+		for k, v := range jt {
+			l = append(l, kv{k, v})
+		}
+		sort.Slice(l, func(i, j int) bool { return l[i].v > l[j].v })
+		for i := 0; i < len(l) && i < 8; i++ {
+			fmt.Fprintf(os.Stderr, "  slow job %6.1fs cpu  %s\n", float64(l[i].v)/1000, l[i].k)
+		}
+	}
 	for _, oc := range perJobOutcomes {
 		if len(oc) > 1 {
 			jobsMulti++
